@@ -159,6 +159,53 @@ func streamPositions(ctx *Ctx) *Result {
 			res.Sample(trunc(src, 300))
 		}
 	})
+	// runtime errors at a known token, after a varying number of constants (so that the
+	// operands of the failing instruction take one, two or three bytes): the reported
+	// location must be the end of that token
+	parallel(ctx.Pool, ctx.Seed+7, ctx.N(60), func(i int, r *rand.Rand, d *Driver) {
+		k := []int{0, 5, 100, 118, 119, 120, 121, 122, 150, 300, 1200}[r.Intn(11)]
+		var b strings.Builder
+		b.WriteString("def blk {\n")
+		for j := 0; j < k; j++ {
+			fmt.Fprintf(&b, " f%d = \"s%d\"\n", j, j)
+		}
+		pre := b.String()
+		type tmpl struct{ line, tok, msg string }
+		t := []tmpl{
+			{" q = nope + 1", "nope", "not resolved"},
+			{" q = 1 + nope", "nope", "not resolved"},
+			{" q = nope", "nope", "not resolved"},
+			{" q = 17 / 0 + 2", "0", "division by"},
+			{" print nope == 1", "nope", "not resolved"},
+			{" q = not nope", "nope", "not resolved"},
+		}[r.Intn(6)]
+		src := pre + t.line + "\n w = 2\n}\n"
+		want := len(pre) + strings.Index(t.line, t.tok) + len(t.tok)
+		var out, log capBuf
+		_, _, err := bcl.Interpret([]byte(src), bcl.OptOutput(&out), bcl.OptLogger(&log))
+		res.Eval(1)
+		res.Count(fmt.Sprintf("rt-position.consts~%d", 2*k), 1)
+		res.Nontrivial(src)
+		if err == nil || !strings.Contains(err.Error(), t.msg) {
+			res.Fail(Failure{Kind: "oracle", Op: "runtime error position", Input: trunc(src, 400) + "…" + t.line, Impl: fmt.Sprint(err),
+				Expected: "a runtime error containing " + t.msg})
+			return
+		}
+		m := reDiagHead.FindStringSubmatch(err.Error())
+		if m == nil {
+			res.Fail(Failure{Kind: "oracle", Op: "runtime error position", Input: t.line, Impl: err.Error(), Expected: "line L:C: …"})
+			return
+		}
+		l, _ := strconv.Atoi(m[1])
+		c, _ := strconv.Atoi(m[2])
+		if got := offsetOf([]byte(src), l, c); got != want {
+			res.Fail(Failure{Kind: "oracle", Op: "runtime error position", Input: src,
+				Impl: fmt.Sprintf("%s (offset %d)", err.Error(), got),
+				Expected: fmt.Sprintf("the location just after %q in %q (offset %d), whatever the number of constants before it (%d)", t.tok, t.line, want, 2*k)})
+			return
+		}
+		diffParseRun(res, d, []byte(src), false)
+	})
 	// the line calculator itself, against the model, on arbitrary sorted tables
 	parallel(ctx.Pool, ctx.Seed+5, ctx.N(400), func(i int, r *rand.Rand, d *Driver) {
 		n := r.Intn(8)
